@@ -180,3 +180,10 @@ JOBS.append({"name": "nt", "props": ["C01", "C02", "C03", "C04", "C05", "C06", "
                         "assigns": "i, __CPROVER_object_whole(intbuf)", "decreases": "phr_size - i"}],
              "unwind": 18, "bounds": {"STR": 32, "STRCPY": 384}, "mem_gb": 6, "timeout": 900, "no_native": True,
              "assumptions": ["MD4_Init/Update/Final and strcpy_or_abort replaced by their contracts (md4_*, leaf_strcpy_or_abort)"]})
+
+JOBS.append({"name": "gost_yescrypt_wrapper", "props": ["C01", "C03", "C04", "C05", "C06", "C15"], "functions": ["crypt_gost_yescrypt_rn"],
+             "harness": "harness/gost_yescrypt_wrap.c", "defs": ["XV_STR_SCAN=129", "XV_STRCPY_MAX=384", "GY_SET=80"], "verif_src": ["models/strings.c"],
+             "unwind": 10, "bounds": {"SPAN": 64, "STR": 129, "SPANEXACT": 24, "STRCPY": 384, "GYMAX": 128, "GYSET": 80}, "unwindset": ["strchr.0:130"],
+             "mem_gb": 8, "timeout": 2400, "no_native": True, "wip": True,
+             "bound": "strlen (setting) < 80 (a default $gy$ setting from crypt_gensalt is about 30 characters, 73 with a full hash)",
+             "assumptions": ["assumed (not enforced) contracts of yescrypt_init_local, yescrypt_r, yescrypt_free_local, yescrypt_decode64, yescrypt_encode64, gost_hash256, gost_hmac256: see harness/gost_yescrypt_wrap.c"]})
